@@ -50,7 +50,9 @@ func producer(t *Term) string {
 // prefix follows on every path to a successful return (the change is not lost).
 func persistedAfter(x hev, evs []hev, prefix string) bool {
 	for _, y := range evs {
-		if y.ev.Kind == "store.set" && hasPrefix(y.ev, prefix) && followedBy(x.ev, y.ev) {
+		// (followedByCall: a write-back helper that loops over the collection it stores - the
+		// call is a must of the caller, the loop body is not a must of the helper)
+		if y.ev.Kind == "store.set" && hasPrefix(y.ev, prefix) && (followedBy(x.ev, y.ev) || followedByCall(x.ev, y.ev)) {
 			return true
 		}
 	}
